@@ -9,11 +9,10 @@ package cpusuppress
 import (
 	"fmt"
 	"math"
-	"runtime/debug"
+	"runtime"
 	"sort"
 	"strconv"
 	"strings"
-	"sync/atomic"
 
 	topov1alpha1 "github.com/k8stopologyawareschedwg/noderesourcetopology-api/pkg/apis/topology/v1alpha1"
 	corev1 "k8s.io/api/core/v1"
@@ -443,29 +442,36 @@ func c10PanicKind(ps string) string {
 }
 
 func c10PanicHead(ps string) string {
-	lines := strings.Split(ps, "\n")
-	var keep []string
-	for _, ln := range lines {
-		if strings.Contains(ln, "cpusuppress") || strings.HasPrefix(ln, "panic:") {
-			keep = append(keep, strings.TrimSpace(ln))
-		}
-		if len(keep) >= 6 {
-			break
-		}
-	}
-	return strings.Join(keep, " | ")
+	return strings.Join(strings.Split(strings.TrimSpace(ps), "\n"), " | at ")
 }
 
-// c10Guard is mc.Guard with a cheap path: only the first few panics of a run pay for a full stack trace (the
-// degenerate members panic by the hundred thousand while a crash defect is open).
-var c10Stacks atomic.Int64
-
+// c10Guard is mc.Guard with a cheap trace: instead of formatting the whole stack (the degenerate members panic by the
+// hundred thousand while a crash defect is open) it records the frames of the package under check.
 func c10Guard(f func()) (ps string) {
 	defer func() {
 		if r := recover(); r != nil {
 			ps = fmt.Sprintf("panic: %v", r)
-			if c10Stacks.Add(1) <= 16 {
-				ps += "\n" + string(debug.Stack())
+			pcs := make([]uintptr, 24)
+			n := runtime.Callers(2, pcs)
+			frames := runtime.CallersFrames(pcs[:n])
+			kept := 0
+			for {
+				fr, more := frames.Next()
+				if strings.Contains(fr.Function, "koordinator") && !strings.Contains(fr.Function, ".c10") && !strings.Contains(fr.Function, "zzverif") {
+					fn := fr.Function
+					if i := strings.LastIndexByte(fn, '/'); i >= 0 {
+						fn = fn[i+1:]
+					}
+					file := fr.File
+					if i := strings.LastIndexByte(file, '/'); i >= 0 {
+						file = file[i+1:]
+					}
+					ps += fmt.Sprintf("\n%s %s:%d", fn, file, fr.Line)
+					kept++
+				}
+				if !more || kept >= 4 {
+					break
+				}
 			}
 		}
 	}()
